@@ -350,7 +350,18 @@ class SamplerCore:
                 if dt.kind in "US":
                     # Strings need to be object arrays or we risk truncation
                     dt = np.dtype("object")
-            blob = np.array(blob, dtype=dt)
+            try:
+                blob = np.array(blob, dtype=dt)
+            except ValueError:
+                # A single array-valued blob with a sub-array dtype, e.g.
+                # blobs_dtype=(float, k) and `return logl, array_of_k`: numpy
+                # cannot build that from 1-tuples, so fill the rows directly
+                if not all(len(b) == 1 for b in blob):
+                    raise
+                rows = np.empty(len(blob), dtype=dt)
+                for i, b in enumerate(blob):
+                    rows[i] = b[0]
+                blob = rows
 
             # Deal with single blobs properly
             shape = blob.shape[1:]
